@@ -15,7 +15,7 @@ class C05(Prop):
     props_file = "Props/C05.v"
     model_targets = ["theories/Agent/StreamPipe.vo"]
     technique = "Coq proof over all stage counts, chunk sequences and interleavings that a pipeline of rendezvous stages retains nothing when quiescent and preserves order (sharpness: a hoarding stage wedges a lock-step producer) + regenerated facts (forced chunked upload, flush interval) + lock-step run of the real handler chain and response forwarder over real HTTP with a stated time bound"
-    level_text = ("C05_no_retention proves for every number of stages, every chunk sequence and every interleaving that whenever nothing can move any more no stage holds anything and the proxy has observed every chunk written so far, in order (C05_order); so a backend that continues only after the proxy "
+    level_text = ("C05_no_retention proves for every number of stages, every chunk sequence and every interleaving that whenever nothing can move any more no stage holds anything and the proxy has observed every chunk written so far, in order (C05_order), and C05_bounded_moves that any run of internal hand-overs is at most (chunks held) x (stages) long; so a backend that continues only after the proxy "
                   "observed the previous chunk always gets to continue. C05_sharp_hoarding_stage shows that one buffering stage breaks this. The source facts that make the upload incremental (TransferEncoding forced to chunked, FlushInterval <= 100 ms) are regenerated and proved. "
                   "PARTIAL: 'within bounded time' is decided by the run: a lock-step backend behind the real handler chain (plain, shim-script injection, banner) and NewResponseForwarder uploads over real HTTP; every chunk (1 byte .. 1 MB, up to 120 chunks, pauses 0-150 ms) must be observed by the proxy within 2 s of its flush.")
     level_note = ("Trusted: Coq kernel, srcfacts, harness, wall clock. Modelled, not verified: io.Pipe rendezvous, net/http's chunked writer and flushing, httputil.ReverseProxy's flush loop, http.Transport streaming the request body. "
